@@ -165,4 +165,5 @@ StopEndsLoop == (Len(hist) > 0 /\ hist[Len(hist)].a = "stop" /\ out.res = "ok") 
 DepthOK == depth \in 0..MaxDepth
 ViewLast == <<inst, rc, hclosed, dead, IF Len(hist) = 0 THEN <<>> ELSE <<hist[Len(hist)].a, hist[Len(hist)].x, hist[Len(hist)].i>>>>
 LifeExport == (Part = "life" /\ depth > 0) => PrintT(ToJson(hist))
+LifeCfgExport == (Part = "life" /\ depth = 0) => PrintT(ToJson([lifecfgs |-> LifeCfgs]))
 =============================================================================
